@@ -693,6 +693,7 @@ func (g *Gtp5g) CreateFAR(lSeid uint64, req *ie.IE) error {
 func (g *Gtp5g) UpdateFAR(lSeid uint64, req *ie.IE) error {
 	var farid uint64
 	var attrs []nl.Attr
+	var newAct *report.ApplyAction
 
 	ies, err := req.UpdateFAR()
 	if err != nil {
@@ -720,7 +721,7 @@ func (g *Gtp5g) UpdateFAR(lSeid uint64, req *ie.IE) error {
 				Type:  gtp5gnl.FAR_APPLY_ACTION,
 				Value: nl.AttrU16(act.Flags),
 			})
-			g.applyAction(lSeid, int(farid), act)
+			newAct = &act
 		case ie.UpdateForwardingParameters:
 			xs, err := i.UpdateForwardingParameters()
 			if err != nil {
@@ -746,6 +747,12 @@ func (g *Gtp5g) UpdateFAR(lSeid uint64, req *ie.IE) error {
 				Value: nl.AttrU8(v),
 			})
 		}
+	}
+
+	if newAct != nil {
+		// release or discard buffered packets once the FAR ID is known,
+		// whatever the order of the IEs in the Update FAR
+		g.applyAction(lSeid, int(farid), *newAct)
 	}
 
 	oid := gtp5gnl.OID{lSeid, farid}
